@@ -31,7 +31,17 @@
 //!    an accepted SOA update is judged).
 //!  * TSIG rejections of the harness' own (reftsig-signed) messages make the run inconclusive
 //!    instead of violated: authenticity is C13's business.
+//!
+//! Part H (`helpers.rs`): the messages above are written with the harness' own wire writer, so
+//! hickory's public client-side builders of UPDATE messages (`op::update_message::{create, append,
+//! compare_and_swap, delete_by_rdata, delete_rrset, delete_all}` + the `UpdateMessage` trait
+//! methods) would go unobserved. For generated (zone, operation, EDNS) cases the helper's message
+//! is (H1, rule `helper-form`) read back with the harness' walker and compared with the RFC 2136
+//! rows the helper's doc comment promises, and (H2, rule `helper-effect`) signed, sent through the
+//! same server path and judged against the operation's intended semantics computed on the
+//! reference zone. Don't-cares are listed in `helpers.rs`.
 
+mod helpers;
 mod reftsig;
 mod refupdate;
 mod zonekit;
@@ -713,6 +723,26 @@ fn main() {
 
     if let Some(case) = ctx.replay_case() {
         let c = &case["case"];
+        if c["kind"].as_str() == Some("helper") {
+            // part H: operation + zone from the JSON alone
+            let mut runner = Runner::new(&ctx, "replay");
+            let mut st = Stats::default();
+            match helpers::case_from_json(c) {
+                Some(hc) => {
+                    for f in helpers::judge(&mut runner, &hc, &mut st) {
+                        rep.eval();
+                        rep.violation(&f.rule, &f.sig, helpers::case_json(&hc), f.expected, f.observed);
+                    }
+                }
+                None => eprintln!("harness problem: helper case not readable"),
+            }
+            for p in st.harness_problems {
+                eprintln!("harness problem: {p}");
+            }
+            runner.env.cleanup();
+            let _ = std::fs::remove_dir_all(scratch_root("c12"));
+            rep.replay_finish();
+        }
         let zone0 = zone_from_json(&c["zone"]);
         let hist: Vec<UpdMsg> = c["history"].as_array().map(|a| a.iter().map(msg_from_json).collect()).unwrap_or_default();
         let mut runner = Runner::new(&ctx, "replay");
@@ -743,6 +773,9 @@ fn main() {
     rep.must("upd/malformed", 100);
     rep.must("messages_accepted", 3000);
     rep.must("messages_rejected", 1000);
+    for (name, min) in helpers::musts() {
+        rep.must(&name, min);
+    }
 
     let mut runner = Runner::new(&ctx, "main");
     let mut rng = ctx.rng("histories");
@@ -781,6 +814,43 @@ fn main() {
                 let (_, fs2) = runner.run_case(&z, Some(&h), None, 0, &mut st2);
                 let f2 = fs2.iter().find(|g| g.rule == f.rule && g.sig == f.sig).unwrap_or(f);
                 rep.violation(&f.rule, &f.sig, case_json(&z, &h), f2.expected.clone(), f2.observed.clone());
+            } else {
+                rep.violation(&f.rule, &f.sig, Value::Null, Value::Null, Value::Null);
+            }
+        }
+    }
+
+    // ---- part H: hickory's own UPDATE message builders (form + effect)
+    let mut hrng = ctx.rng("helpers");
+    let n_cases = ctx.budget(5000, 60_000);
+    for _ in 0..n_cases {
+        let mut r = hrng.fork();
+        let case = helpers::gen_case(&mut r);
+        let mut st = Stats::default();
+        let fs = helpers::judge(&mut runner, &case, &mut st);
+        rep.count("H/cases");
+        rep.evals(st.evals);
+        for (k, v) in &st.counters {
+            rep.add(k, *v);
+        }
+        for h in &st.nontrivial {
+            rep.nontrivial(*h);
+        }
+        for p in &st.harness_problems {
+            rep.count("harness_problems");
+            rep.inconclusive(&format!("harness: {p}"));
+        }
+        rep.sample(|| json!({"part": "H", "zone": zone_lines(&case.zone), "op": helpers::op_json(&case.op), "edns": case.edns, "findings": fs.len()}));
+        for f in &fs {
+            let key = (f.rule.clone(), f.sig.clone());
+            let n = witnessed.entry(key).or_insert(0);
+            *n += 1;
+            if *n <= 3 {
+                let small = helpers::shrink(&mut runner, &case, &f.rule, &f.sig);
+                let mut st2 = Stats::default();
+                let fs2 = helpers::judge(&mut runner, &small, &mut st2);
+                let f2 = fs2.iter().find(|g| g.rule == f.rule && g.sig == f.sig).unwrap_or(f);
+                rep.violation(&f.rule, &f.sig, helpers::case_json(&small), f2.expected.clone(), f2.observed.clone());
             } else {
                 rep.violation(&f.rule, &f.sig, Value::Null, Value::Null, Value::Null);
             }
